@@ -69,8 +69,19 @@ func counting[K any](f func(a, b K) int, n *int64) func(a, b K) int {
 func log2(x float64) float64 { return math.Log2(x) }
 
 func newRBT[K comparable, V comparable](cm NamedCmp[K]) *KV[K, V] {
+	return newRBTOn[K, V](cm, nil)
+}
+
+// newRBTOn: mk, if set, supplies a container made by the package's New (built-in comparator for ordered key types).
+func newRBTOn[K comparable, V comparable](cm NamedCmp[K], mk func() any) *KV[K, V] {
 	kv := &KV[K, V]{Name: "RedBlackTree", KCmp: cm.F, CmpName: cm.Name, Sorted: true, Aligned: true, Count: new(int64)}
-	t := redblacktree.NewWith[K, V](counting(cm.F, kv.Count))
+	var t *redblacktree.Tree[K, V]
+	if mk != nil {
+		t = mk().(*redblacktree.Tree[K, V])
+		kv.CmpName = "builtin"
+	} else {
+		t = redblacktree.NewWith[K, V](counting(cm.F, kv.Count))
+	}
 	kv.M, kv.JSON, kv.Raw = t, t, t
 	kv.Floor = func(k K) (K, V, bool) {
 		n, ok := t.Floor(k)
@@ -105,13 +116,24 @@ func newRBT[K comparable, V comparable](cm NamedCmp[K]) *KV[K, V] {
 	kv.Iter = func() containers.ReverseIteratorWithKey[K, V] { return t.Iterator() }
 	kv.Bound = func(n int) float64 { return 2*log2(float64(n)+1) + 2 }
 	kv.Walk = func(c *core.Ctx, kv *KV[K, V], n int) { walkRBT(c, t, n) }
-	kv.Fresh = func() *KV[K, V] { return newRBT[K, V](cm) }
+	kv.Fresh = func() *KV[K, V] { return newRBTOn[K, V](cm, mk) }
 	return kv
 }
 
 func newAVL[K comparable, V comparable](cm NamedCmp[K]) *KV[K, V] {
+	return newAVLOn[K, V](cm, nil)
+}
+
+// newAVLOn: mk, if set, supplies a container made by the package's New (built-in comparator for ordered key types).
+func newAVLOn[K comparable, V comparable](cm NamedCmp[K], mk func() any) *KV[K, V] {
 	kv := &KV[K, V]{Name: "AVLTree", KCmp: cm.F, CmpName: cm.Name, Sorted: true, Aligned: true, Count: new(int64)}
-	t := avltree.NewWith[K, V](counting(cm.F, kv.Count))
+	var t *avltree.Tree[K, V]
+	if mk != nil {
+		t = mk().(*avltree.Tree[K, V])
+		kv.CmpName = "builtin"
+	} else {
+		t = avltree.NewWith[K, V](counting(cm.F, kv.Count))
+	}
 	kv.M, kv.JSON, kv.Raw = t, t, t
 	kv.Floor = func(k K) (K, V, bool) {
 		n, ok := t.Floor(k)
@@ -146,13 +168,24 @@ func newAVL[K comparable, V comparable](cm NamedCmp[K]) *KV[K, V] {
 	kv.Iter = func() containers.ReverseIteratorWithKey[K, V] { return t.Iterator() }
 	kv.Bound = func(n int) float64 { return 1.45*log2(float64(n)+2) + 2 }
 	kv.Walk = func(c *core.Ctx, kv *KV[K, V], n int) { walkAVL(c, t, n) }
-	kv.Fresh = func() *KV[K, V] { return newAVL[K, V](cm) }
+	kv.Fresh = func() *KV[K, V] { return newAVLOn[K, V](cm, mk) }
 	return kv
 }
 
 func newBTree[K comparable, V comparable](order int, cm NamedCmp[K]) *KV[K, V] {
+	return newBTreeOn[K, V](order, cm, nil)
+}
+
+// newBTreeOn: mk, if set, supplies a container made by the package's New (built-in comparator for ordered key types).
+func newBTreeOn[K comparable, V comparable](order int, cm NamedCmp[K], mk func() any) *KV[K, V] {
 	kv := &KV[K, V]{Name: "BTree", KCmp: cm.F, CmpName: cm.Name, Sorted: true, Aligned: true, Count: new(int64), Order: order}
-	t := btree.NewWith[K, V](order, counting(cm.F, kv.Count))
+	var t *btree.Tree[K, V]
+	if mk != nil {
+		t = mk().(*btree.Tree[K, V])
+		kv.CmpName = "builtin"
+	} else {
+		t = btree.NewWith[K, V](order, counting(cm.F, kv.Count))
+	}
 	kv.M, kv.JSON, kv.Raw = t, t, t
 	kv.Min = []func() (K, V, bool){
 		func() (k K, v V, ok bool) {
@@ -198,20 +231,31 @@ func newBTree[K comparable, V comparable](order int, cm NamedCmp[K]) *KV[K, V] {
 		return 4 * (log2(m) + 1) * (log2(float64(n)+1)/log2(half) + 1)
 	}
 	kv.Walk = func(c *core.Ctx, kv *KV[K, V], n int) { walkBTree(c, t, order, n) }
-	kv.Fresh = func() *KV[K, V] { return newBTree[K, V](order, cm) }
+	kv.Fresh = func() *KV[K, V] { return newBTreeOn[K, V](order, cm, mk) }
 	return kv
 }
 
 func newTreeMap[K comparable, V comparable](cm NamedCmp[K]) *KV[K, V] {
+	return newTreeMapOn[K, V](cm, nil)
+}
+
+// newTreeMapOn: mk, if set, supplies a container made by the package's New (built-in comparator for ordered key types).
+func newTreeMapOn[K comparable, V comparable](cm NamedCmp[K], mk func() any) *KV[K, V] {
 	kv := &KV[K, V]{Name: "TreeMap", KCmp: cm.F, CmpName: cm.Name, Sorted: true, Aligned: true, Count: new(int64)}
-	t := treemap.NewWith[K, V](counting(cm.F, kv.Count))
+	var t *treemap.Map[K, V]
+	if mk != nil {
+		t = mk().(*treemap.Map[K, V])
+		kv.CmpName = "builtin"
+	} else {
+		t = treemap.NewWith[K, V](counting(cm.F, kv.Count))
+	}
 	kv.M, kv.JSON, kv.Raw = t, t, t
 	kv.Floor = t.Floor
 	kv.Ceiling = t.Ceiling
 	kv.Min = []func() (K, V, bool){t.Min}
 	kv.Max = []func() (K, V, bool){t.Max}
 	kv.Iter = func() containers.ReverseIteratorWithKey[K, V] { return t.Iterator() }
-	kv.Fresh = func() *KV[K, V] { return newTreeMap[K, V](cm) }
+	kv.Fresh = func() *KV[K, V] { return newTreeMapOn[K, V](cm, mk) }
 	return kv
 }
 
@@ -233,11 +277,22 @@ func newHashBidi[K comparable, V comparable]() *KV[K, V] {
 }
 
 func newTreeBidi[K comparable, V comparable](kc NamedCmp[K], vc NamedCmp[V]) *KV[K, V] {
-	t := treebidimap.NewWith[K, V](kc.F, vc.F)
-	return &KV[K, V]{Name: "TreeBidiMap", M: t, JSON: t, Raw: t, KCmp: kc.F, VCmp: vc.F, CmpName: kc.Name + "/" + vc.Name, Sorted: true, ValuesSorted: true,
+	return newTreeBidiOn[K, V](kc, vc, nil)
+}
+
+func newTreeBidiOn[K comparable, V comparable](kc NamedCmp[K], vc NamedCmp[V], mk func() any) *KV[K, V] {
+	var t *treebidimap.Map[K, V]
+	name := kc.Name + "/" + vc.Name
+	if mk != nil {
+		t = mk().(*treebidimap.Map[K, V])
+		name = "builtin"
+	} else {
+		t = treebidimap.NewWith[K, V](kc.F, vc.F)
+	}
+	return &KV[K, V]{Name: "TreeBidiMap", M: t, JSON: t, Raw: t, KCmp: kc.F, VCmp: vc.F, CmpName: name, Sorted: true, ValuesSorted: true,
 		GetKey: t.GetKey,
 		Iter:   func() containers.ReverseIteratorWithKey[K, V] { return t.Iterator() },
-		Fresh:  func() *KV[K, V] { return newTreeBidi[K, V](kc, vc) }}
+		Fresh:  func() *KV[K, V] { return newTreeBidiOn[K, V](kc, vc, mk) }}
 }
 
 // ---- structure walkers (C07) ------------------------------------------------
